@@ -293,7 +293,15 @@ func checkGrowth(g GCase) error {
 	}
 	// the run grows two words at a time so that an exploding scanner is reported after seconds instead of being waited for
 	for n := 12; n <= 22; n += 2 {
-		if large := timeOf(n); large > 1500*time.Millisecond && large > 300*floor {
+		slow := func(d time.Duration) bool { return d > 1500*time.Millisecond && d > 300*floor }
+		large := timeOf(n)
+		for again := 0; again < 3 && slow(large); again++ { // a stalled machine is not an exploding scanner: only a run that is slow every time counts
+			time.Sleep(2 * time.Second)
+			if d := timeOf(n); d < large {
+				large = d
+			}
+		}
+		if slow(large) {
 			return fmt.Errorf("%s: scanning %q repeated %d times takes %v, repeated 10 times %v: the running time explodes with the number of unterminated BEGIN words (does not terminate in practice for a few dozen)", OptNames[g.Opt], g.Unit, n, large, small)
 		}
 	}
